@@ -374,3 +374,49 @@ func zzC12Tick() {
 }
 
 func ZzC12Tick() { zzC12Tick() }
+
+// ZzC12ConfirmedConflict: "a confirmed spend of the output removes the lease"
+// also when the confirming transaction is not the unconfirmed spender the
+// wallet already knows: A confirmed (two credits), A:0 leased, B (spends A:0)
+// seen unconfirmed [optional], then its replacement B' (spends A:0 and A:1)
+// confirms. Afterwards no lease is listed, and when the block is disconnected
+// again the output is available.
+func ZzC12ConfirmedConflict() {
+	w := &zzLeaseWorld{zzWorld: zzNewWorld(zzU9())}
+	w.setClock(true)
+	b0 := zzBlock(zzBaseHeight, 0)
+	must(w.update(func(ns walletdb.ReadWriteBucket) error { return w.insert(ns, 0, b0) }))
+	w.seen[zzBaseHeight] = true
+	w.l.mine(0, zzBaseHeight, 0)
+	op := wire.OutPoint{Hash: w.txs[0].hash, Index: 0}
+	must(w.update(func(ns walletdb.ReadWriteBucket) error {
+		_, err := w.store.LockOutput(ns, zzLockID(1), op, 10*time.Minute)
+		return err
+	}))
+	w.l.leaseID[op] = 1
+	w.l.leaseExp[op] = w.sec + 600
+	if verifrt.Choice(2, "unconfirmed-spender-known") == 1 {
+		must(w.update(func(ns walletdb.ReadWriteBucket) error { return w.insert(ns, 1, nil) }))
+		w.l.status[1] = zzUnmined
+		verifrt.Reach("conflicting-unconfirmed-spender")
+	}
+	// the replacement confirms
+	b1 := zzBlock(zzBaseHeight+1, 0)
+	must(w.update(func(ns walletdb.ReadWriteBucket) error { return w.insert(ns, 2, b1) }))
+	w.seen[zzBaseHeight+1] = true
+	w.l.mine(2, zzBaseHeight+1, 0)
+	verifrt.Scope(func() { w.checkLeases("c12-confirmed-conflict-leases") })
+	must(w.view(func(ns walletdb.ReadBucket) error {
+		ls, err := w.store.ListLockedOutputs(ns)
+		must(err)
+		verifrt.Assert(len(ls) == 0, "c12-confirmed-spend-removes-the-lease")
+		return nil
+	}))
+	verifrt.Scope(func() { w.checkBalance("c12-confirmed-conflict-balance") })
+	// disconnected again: the output is back and not leased
+	must(w.update(func(ns walletdb.ReadWriteBucket) error { return w.store.Rollback(ns, zzBaseHeight+1) }))
+	w.l.rollback(zzBaseHeight + 1)
+	verifrt.Scope(func() { w.checkBalance("c12-after-disconnect-balance") })
+	verifrt.Scope(func() { w.checkUnspent("c12-after-disconnect-unspent") })
+	verifrt.Reach("c12-end")
+}
